@@ -182,13 +182,14 @@ REGISTRY = {
         "floor": floors(("shape:empty-source", 50), ("shape:empty-patch", 50), ("shape:empty-series", 50), ("shape:all-applied", 50), ("shape:goal-applied", 50), ("shape:symlinked-source", 50), ("shape:symlinked-patch", 50), ("shape:many-files-low-fd-limit", 50), ("shape:page-multiple-source", 50), ("failing-series", 200), ("options:--mmap", 100)),
     },
     "C15": {
-        "level_text": "real pushes under strace on a workspace whose files are hard-linked into a twin tree; inode identity, twin content and every syscall on bystander files are checked",
-        "level_note": "trusted: strace decoding; os.link twin",
+        "level_text": "real pushes under strace on a workspace whose files are hard-linked into a twin tree (all files, some, or none; a file without a twin is held open by the monitor instead); inode identity, twin content, the bytes and link count seen through the held descriptors and every syscall on bystander files are checked",
+        "level_note": "trusted: strace decoding; os.link twin; descriptors opened before the push",
         "technique": "runtime monitoring: hard-link twin invariant + syscall-log audit",
         "parts": [K.cli_c15, K.san_c15],
-        "rule": "modify/truncate/delete/rename/mode change, failing series (files re-saved after rollback), both loaders, threads 1/4; three bystander files that no patch names. "
+        "rule": "modify/truncate/delete/rename/mode change, failing series (files re-saved after rollback), both loaders, threads 1/4; twin of all / some / no files (50/25/25 %), the others held open; three bystander files that no patch names. "
                 "Non-trivial: at least one file was replaced.",
-        "floor": floors(("files-replaced", 500), ("bystanders-verified", 1000), ("failing-series-(files-resaved-after-rollback)", 50), ("runs-with-an-injected-output-fault", 100)),
+        "floor": floors(("files-replaced", 500), ("bystanders-verified", 1000), ("failing-series-(files-resaved-after-rollback)", 50), ("runs-with-an-injected-output-fault", 100),
+                        ("held-open-files-replaced", 200), ("twin:none", 100)),
     },
     "C16": {
         "level_text": "real pushes of series files in random accepted spellings, and of directed workspaces enumerating the 16 combinations of old/new name state; the resulting tree and .pc entries are compared with ground truth",
@@ -213,12 +214,13 @@ REGISTRY = {
     "C18": {
         "level": "fault_enumeration",
         "level_text": "for each workspace the output operations of a fault-free run are counted by an LD_PRELOAD shim (one global counter over all threads) and the run is repeated once per operation with that operation failing; exit status, message and applied-patches are checked",
-        "level_note": "trusted: shim interposition of open/open64/openat/creat/write/writev/unlink/mkdir/rmdir/chmod/fchmod/rename/ftruncate; close/fsync failures and short writes are not modelled; in parallel runs the k-th operation may differ from the baseline's (it is still one output operation of that run)",
+        "level_note": "trusted: shim interposition of open/open64/openat/creat/write/writev/unlink/mkdir/rmdir/chmod/fchmod/rename/ftruncate; a write can also be made a SHORT write followed by 'no more room' on that descriptor; close/fsync failures are not modelled; in parallel runs the k-th operation may differ from the baseline's (it is still one output operation of that run)",
         "technique": "runtime monitoring with fault injection: k-th-output-operation enumeration via LD_PRELOAD shim",
         "parts": [K.cli_c18],
         "rule": "random series (incl. failing ones, so rejects are written) pushed with --backup always, sequential and 4 threads; every k = 1..n of the n output operations of the fault-free run is failed in turn "
-                "(ENOSPC for open/write/mkdir, EACCES/EIO for unlink/rmdir/fchmod). Non-trivial: the fault was actually injected (shim log); distinct by (operation kind, output class, driver, workspace, k).",
-        "floor": floors(("faults-injected", 500), ("fault:write:tree", 20), ("fault:open:backup", 20), ("fault:open:reject", 5), ("fault:open:applied-patches", 20), ("fault:unlink:tree", 20), ("fault:mkdir:backup", 5)),
+                "(ENOSPC for open/write/mkdir, EACCES/EIO for unlink/rmdir/fchmod); every write is also turned into a short write (half of the bytes taken, then ENOSPC); a third of the workspaces have files whose LAST line is longer than the 8 KiB buffer. Non-trivial: the fault was actually injected (shim log); distinct by (operation kind, output class, driver, workspace, k).",
+        "floor": floors(("faults-injected", 500), ("fault:write:tree", 20), ("fault:open:backup", 20), ("fault:open:reject", 5), ("fault:open:applied-patches", 20), ("fault:unlink:tree", 20), ("fault:mkdir:backup", 5),
+                        ("fault:write:tree:short", 50), ("fault:write:backup:short", 50), ("short-writes-inside-a-line-longer-than-the-buffer", 20)),
     },
     "C19": {
         "level_text": "real pushes under strace inside a sentinel directory with decoy files at the places escaping names point to; sentinel snapshot, syscall audit, exit status and clean-failure oracle",
@@ -226,7 +228,7 @@ REGISTRY = {
         "technique": "runtime monitoring: sentinel snapshot + syscall-log audit",
         "parts": [K.cli_c19],
         "rule": "10 escaping spellings (absolute, '..' surviving -p0/-p1/-p2, inner and trailing '..', './..') x position (---, +++, both, diff --git line, rename source/target) x "
-                "modify/create/delete of decoys x quoted with octal escapes or not x threads 1/4 x position of the offending patch in a random series. "
+                "modify/create/delete of decoys, incl. creation- and deletion-shaped hunks with two real names (one escaping, one inside) x quoted with octal escapes or not x threads 1/4 x position of the offending patch in a random series. "
                 "Non-trivial: all of them (every name resolves outside the workspace); distinct by (spelling, position, action, quoting, threads, series).",
         "floor": floors(("held-runs", 500), ("syscalls-audited", 10000)),
     },
